@@ -693,7 +693,11 @@ def run_property_kani(prop, tier, harnesses, seed):
             def job(h, idx):
                 tdir = os.path.join(d, "target-%d" % idx)
                 clone_target(cache_tdir, tdir)
-                out, rc, to, wall, logf = run_kani(crate, h, tdir, logdir, extra=PLAYBACK_FLAGS)
+                # quick-tier harnesses are decided with playback generation on (a failing run then already
+                # contains the tests: no second solver run inside the 900 s budget); thorough-only harnesses
+                # are the memory-hungry ones and generate the trace in a second run, only when they fail
+                first_flags = PLAYBACK_FLAGS if h.tier in ("quick", "quickonly") else None
+                out, rc, to, wall, logf = run_kani(crate, h, tdir, logdir, extra=first_flags)
                 r = evaluate(h, out, rc, to, wall, logf)
                 if r.status == "fail":
                     log("  %s: obligation failed, replaying natively ..." % h.name)
